@@ -256,20 +256,28 @@ def run(tier: str, seed: int) -> int:
         dicts += export(run_, "MC_Prune", "NL = 2 MaxPer = 2 MaxArity = 2", "NL = 3 MaxPer = 2 MaxArity = 2", "all dictionaries, 3 labels, <=2 rules per label")
         dicts += random_dicts(seed + 5, 20000, 5, 3, 3)
     dicts = [d for d in dicts if d]
-    evs = pmap(dict_events, [(d, tier) for d in dicts], procs=16, chunk=64)
     traces = []
-    for i, (d, e) in enumerate(zip(dicts, evs)):
-        # the breadth-first generator's trees are judged in a trace of their own, so that its known finding
-        # cannot mask a later event of the same dictionary
-        traces.append({"tid": "d%d" % i, "events": [x for x in e if x["finder"] != "proof_tree_generator_bfs"]})
-        bfs = [x for x in e if x["finder"] == "proof_tree_generator_bfs"]
-        for j, x in enumerate(bfs):
-            traces.append({"tid": "d%d-bfs%d" % (i, j), "events": [x]})
-        run_.events += len(e)
-        ntrees = len({json.dumps(x["tree"]) for x in e if x["op"] == "tree"})
-        if ntrees >= 2:
-            run_.nt(json.dumps(d))
-    run_.sample({"dictionary": dicts[len(dicts) // 2], "events": [x for x in evs[len(dicts) // 2] if x["op"] in ("prune", "smallest")][:3]})
+    CH = 20000  # dictionaries per chunk: their events are judged and dropped before the next chunk is produced
+    for lo in range(0, len(dicts), CH):
+        part = dicts[lo:lo + CH]
+        evs = pmap(dict_events, [(d, tier) for d in part], procs=16, chunk=64)
+        ctraces = []
+        for i, (d, e) in enumerate(zip(part, evs)):
+            # the breadth-first generator's trees are judged in a trace of their own, so that its known finding
+            # cannot mask a later event of the same dictionary
+            ctraces.append({"tid": "d%d" % (lo + i), "events": [x for x in e if x["finder"] != "proof_tree_generator_bfs"]})
+            bfs = [x for x in e if x["finder"] == "proof_tree_generator_bfs"]
+            for j, x in enumerate(bfs):
+                ctraces.append({"tid": "d%d-bfs%d" % (lo + i, j), "events": [x]})
+            run_.events += len(e)
+            ntrees = len({json.dumps(x["tree"]) for x in e if x["op"] == "tree"})
+            if ntrees >= 2:
+                run_.nt(json.dumps(d))
+        if lo == 0:
+            run_.sample({"dictionary": part[len(part) // 2], "events": [x for x in evs[len(part) // 2] if x["op"] in ("prune", "smallest")][:3]})
+        run_.evaluations += len(ctraces)
+        judge(run_, ctraces, "dictionaries-%d" % (lo // CH))
+        del ctraces, evs
     # (B) insertion histories into a real RuleDB
     hists = export(run_, "MC_RuleDB", "NL = 3 MaxRules = 2", "NL = 3 MaxRules = %d" % (2 if tier == "quick" else 3), "all insertion histories, 3 labels")
     if tier == "thorough":
@@ -286,8 +294,8 @@ def run(tier: str, seed: int) -> int:
         if any(x["ans"] for x in e) and any(len(r["e"]) == 1 for r in h):
             run_.nt("hist:%s:%s" % (it, json.dumps(h)))
     run_.sample({"insertion_history": jobs[-1][0], "iterative": jobs[-1][1], "answers": [x["ans"] for x in hevs[-1]]})
-    run_.evaluations = len(traces)
-    judge(run_, traces, "replayed")
+    run_.evaluations += len(traces)
+    judge(run_, traces, "insertion-histories")
     try:
         from . import search_campaign
     except ImportError:
